@@ -419,6 +419,18 @@ func special(r *rand.Rand, id, route string, rq Request) Request {
 			sp.Attributes = sp.Attributes[r.Intn(len(sp.Attributes)):]
 		}
 		rs := &otlpTrace.ResourceSpans{ScopeSpans: []*otlpTrace.ScopeSpans{{Spans: []*otlpTrace.Span{sp, nil}[:1+r.Intn(2)]}}}
+		if r.Intn(3) == 0 {
+			// a large export (batch-sized code paths) with the odd span somewhere inside
+			n := 130 + r.Intn(300)
+			spans := make([]*otlpTrace.Span, 0, n+1)
+			for i := 0; i < n; i++ {
+				spans = append(spans, &otlpTrace.Span{TraceId: randBytes(r, 16), SpanId: randBytes(r, 8), Name: fmt.Sprintf("s%s-%d", id, i), StartTimeUnixNano: 1700000000000000000 + uint64(i), EndTimeUnixNano: 1700000000000001000 + uint64(i),
+					Attributes: []*otlpCommon.KeyValue{{Key: "k", Value: &otlpCommon.AnyValue{Value: &otlpCommon.AnyValue_StringValue{StringValue: "v"}}}}})
+			}
+			at := r.Intn(n)
+			spans = append(spans[:at], append([]*otlpTrace.Span{sp}, spans[at:]...)...)
+			rs.ScopeSpans[0].Spans = spans
+		}
 		if r.Intn(2) == 0 {
 			rs.ScopeSpans = append(rs.ScopeSpans, nil)
 		}
